@@ -25,7 +25,7 @@ TRUSTED = ["Python str.strip/split/splitlines/partition/ljust and dict order are
            "(whitespace = str.isspace, only '\\n' as line boundary inside the hypotheses)",
            "numpy unicode arrays are modelled as lists of strings (itemsize = longest element)",
            "msgpack and the BinaryCIF column encodings are outside this property (C05)"]
-ASSUMPTIONS = ["values are strings over printable ASCII, tab and newline; names follow the CIF name grammar "
+ASSUMPTIONS = ["values are arbitrary Python strings (all of Unicode; line boundaries other than \\n are a known finding); names follow the CIF name grammar "
                "(no blank, no '.', no quote); container keys include leading/inner/trailing/double underscores"]
 LEVEL_TEXT = ("Lean theorems, all for unbounded inputs. C06_file_roundtrip / C06_block_roundtrip: a file of blocks of categories of "
               "rectangular tables of single-line values (blanks, tabs, either quote character, every special first character / "
